@@ -10,6 +10,7 @@ import (
 	"fmt"
 	"os"
 	"runtime"
+	"runtime/debug"
 	"sort"
 	"strconv"
 	gosync "sync"
@@ -19,8 +20,15 @@ import (
 )
 
 type g struct {
-	id   int
-	wake chan struct{}
+	id     int
+	wake   chan struct{}
+	alts   int // >1 when parked in Choose: number of environment answers
+	choice int
+}
+
+type entry struct {
+	g   *g
+	alt int
 }
 
 // Sched is the scheduler of one execution.
@@ -42,6 +50,7 @@ type Sched struct {
 }
 
 var cur *Sched
+var runs int
 
 func goid() uint64 {
 	var buf [64]byte
@@ -81,6 +90,27 @@ func Point(w ...string) {
 	s.parked[x] = what
 	s.mu.Unlock()
 	<-x.wake
+}
+
+// Choose is an environment choice point (a fault, a timeout, which peer answers): the
+// explorer enumerates the n answers. Answer 0 is the default; any other answer counts as one
+// deviation, like a preemption. Returns 0 when no scheduler is active.
+func Choose(n int, w ...string) int {
+	s := cur
+	if s == nil || !s.active || n <= 1 {
+		return 0
+	}
+	what := "choose"
+	if len(w) > 0 {
+		what = w[0]
+	}
+	x := s.self()
+	s.mu.Lock()
+	x.alts = n
+	s.parked[x] = what
+	s.mu.Unlock()
+	<-x.wake
+	return x.choice
 }
 
 // Resumed is called after a possibly blocking real operation: a goroutine that was woken
@@ -134,13 +164,13 @@ func (s *Sched) Run(threads ...func()) (deadlock bool) {
 	for {
 		synctest.Wait()
 		s.mu.Lock()
-		var en []*g
+		var gs []*g
 		for x := range s.parked {
-			en = append(en, x)
+			gs = append(gs, x)
 		}
 		s.mu.Unlock()
-		sort.Slice(en, func(i, j int) bool { return en[i].id < en[j].id })
-		if len(en) == 0 {
+		sort.Slice(gs, func(i, j int) bool { return gs[i].id < gs[j].id })
+		if len(gs) == 0 {
 			lmu.Lock()
 			l := left
 			lmu.Unlock()
@@ -163,13 +193,23 @@ func (s *Sched) Run(threads ...func()) (deadlock bool) {
 		idle = 0
 		runFirst := false
 		if s.running != nil {
-			for i, x := range en {
+			for i, x := range gs {
 				if x == s.running {
-					copy(en[1:i+1], en[:i])
-					en[0] = x
+					copy(gs[1:i+1], gs[:i])
+					gs[0] = x
 					runFirst = true
 					break
 				}
+			}
+		}
+		var en []entry
+		for _, x := range gs {
+			n := 1
+			if x.alts > 1 {
+				n = x.alts
+			}
+			for a := 0; a < n; a++ {
+				en = append(en, entry{x, a})
 			}
 		}
 		c := 0
@@ -177,16 +217,20 @@ func (s *Sched) Run(threads ...func()) (deadlock bool) {
 		if k < len(s.prefix) {
 			c = s.prefix[k]
 			if c >= len(en) {
-				s.Diverged = fmt.Sprintf("step %d: schedule asks for choice %d but only %d goroutines are enabled", k, c, len(en))
+				s.Diverged = fmt.Sprintf("step %d: schedule asks for choice %d but only %d alternatives are enabled", k, c, len(en))
 				c = 0
 			}
 		}
 		s.Choices = append(s.Choices, c)
 		s.Enabled = append(s.Enabled, len(en))
 		s.RunFirst = append(s.RunFirst, runFirst)
-		x := en[c]
+		x := en[c].g
+		x.choice, x.alts = en[c].alt, 0
 		s.mu.Lock()
 		what := s.parked[x]
+		if en[c].alt > 0 {
+			what += "#" + strconv.Itoa(en[c].alt)
+		}
 		delete(s.parked, x)
 		s.running = x
 		s.mu.Unlock()
@@ -260,6 +304,14 @@ func RunOnce(t *testing.T, cfg Config, prefix []int) (s *Sched, outcome string, 
 	if max == 0 {
 		max = 5000
 	}
+	// No garbage collection cycle may start inside an execution: a goroutine stopped for GC
+	// is requeued behind others, which reorders un-instrumented wake-ups and breaks replay.
+	runs++
+	if runs%64 == 0 {
+		debug.SetGCPercent(100)
+		runtime.GC()
+	}
+	debug.SetGCPercent(-1)
 	synctest.Test(t, func(t *testing.T) {
 		SetDet(true, cfg.SelRot, cfg.MapOff)
 		defer SetDet(false, 0, 0)
